@@ -2,6 +2,7 @@ import YatimlModel.Model.Wire
 import YatimlModel.Model.Json
 import YatimlModel.Model.JsonString
 import YatimlModel.Model.Regex
+import YatimlModel.Spec.JsonParse
 /-! Driver commands for the JSON emitter model. -/
 namespace YatimlModel.Driver
 open YatimlModel.Wire YatimlModel.Json
@@ -88,6 +89,35 @@ def cmdJstr : List Sexp → String
       let out := JsonString.dumps a cs
       s!"{out} {JsonString.validJsonString out}"
     | _, _ => "bad-args"
+  | _ => "bad-args"
+
+open YatimlModel.JsonParse in
+mutual
+/-- canonical one-line rendering of a parsed JSON value (code points as decimal numbers) -/
+partial def showJV : JV → String
+  | .null => "n"
+  | .bool b => if b then "t" else "f"
+  | .num cs => s!"#{cs}"
+  | .str cs => s!"s{cs}"
+  | .arr xs => "[" ++ showJVs xs ++ "]"
+  | .obj kvs => "{" ++ showJKVs kvs ++ "}"
+partial def showJVs : JVs → String
+  | .nil => ""
+  | .cons x xs => showJV x ++ ";" ++ showJVs xs
+partial def showJKVs : JKVs → String
+  | .nil => ""
+  | .cons k v rest => s!"s{k}" ++ ":" ++ showJV v ++ ";" ++ showJKVs rest
+end
+
+/-- `jparse <hex text>`: the RFC 8259 reference parser of `Spec/JsonParse` on a text -/
+def cmdJparse : List Sexp → String
+  | [s] =>
+    match s.codes? with
+    | some cs =>
+      match JsonParse.parseJson cs with
+      | some v => "ok " ++ showJV v
+      | none => "reject"
+    | none => "bad-args"
   | _ => "bad-args"
 
 end YatimlModel.Driver
